@@ -412,6 +412,8 @@ pub fn ctxlimit<S: MlDsa>(seed: u64, maxlen: usize, extra: &[usize], out: &mut O
                 // ... and one signed for the truncated context
                 let short = &ctx[..*n % 256];
                 if let Some(s2) = w.sign(hs, &m, short, mode, &draw, Fault::None) { let _ = w.verify(hp, &m, &ctx, mode, &s2); }
+                // ... and one signed for the first 255 bytes (a verifier that clamps instead of rejecting)
+                if i % 4 < 2 || *n < 300 { if let Some(s3) = w.sign(hs, &m, &ctx[..255], mode, &draw, Fault::None) { let _ = w.verify(hp, &m, &ctx, mode, &s3); } }
             }
         }
     }
